@@ -847,6 +847,40 @@ func CaptureComposite(t Tier) []*Grammar {
 	return build("capcomp2", top(ts), []scheme{schemeOwn, schemeSlices, schemeToks}, "abc", ml)
 }
 
+// RecursiveCaptures: a production that contains itself (through a union), with captures of the ENCLOSING
+// instance still pending while the nested instance completes, inside an alternative that is given up later.
+func RecursiveCaptures(t Tier) []*Grammar {
+	var out []*Grammar
+	mk := func(name string, body func(u *g.Prod) *g.Node) {
+		u := &g.Prod{Name: "U0", UnionSlot: 0, Members: []*g.Prod{nil}}
+		s := assign("R", body(u), schemeOwn)
+		u.Members = []*g.Prod{s}
+		ml := 6
+		if t == Quick {
+			ml = 5
+		}
+		out = append(out, &Grammar{Family: "rec-capture-" + name, Root: s, Alphabet: "ab;", MaxLen: ml})
+	}
+	id := func() *g.Node { return capMark(g.Ref("Ident")) }
+	mk("alt-then-bang", func(u *g.Prod) *g.Node {
+		// ( @Ident "a" @@ "b" ";" ) | ( @Ident ( "a" @@ "b" )? )
+		return g.Alt(g.Seq(id(), g.Lit("a"), g.Sub(-1, u), g.Lit("b"), g.Lit(";")), g.Seq(id(), g.Grp(g.Seq(g.Lit("a"), g.Sub(-1, u), g.Lit("b")), '?')))
+	})
+	mk("optional-tail", func(u *g.Prod) *g.Node {
+		// @Ident ( "a" @@ ";" )? @Ident?
+		return g.Seq(id(), g.Grp(g.Seq(g.Lit("a"), g.Sub(-1, u), g.Lit(";")), '?'), g.Grp(id(), '?'))
+	})
+	mk("repeat", func(u *g.Prod) *g.Node {
+		// ( @Ident "a" @@ ";" )* @Ident
+		return g.Seq(g.Grp(g.Seq(id(), g.Lit("a"), g.Sub(-1, u), g.Lit(";")), '*'), id())
+	})
+	mk("lookahead", func(u *g.Prod) *g.Node {
+		// (?! @Ident "a" @@ ";" ) @Ident ( "a" @@ )?
+		return g.Seq(g.Look(g.Seq(id(), g.Lit("a"), g.Sub(-1, u), g.Lit(";")), '!'), id(), g.Grp(g.Seq(g.Lit("a"), g.Sub(-1, u)), '?'))
+	})
+	return out
+}
+
 // ParseableFam: a user-implemented production (gmodel.PNotB) at choice points: attempts it abandons with
 // NextMatch after writing to its receiver, followed by attempts that succeed.
 func ParseableFam(t Tier) []*Grammar {
